@@ -182,9 +182,11 @@ Definition is_go (f : fnref) : bool := match f with FnGo _ => true | FnLua _ => 
    while it is not running; Parent, wrapped, Dead; started = its currentFrame is not nil *)
 Record thread := mkTh {
   th_reg : registry; th_stack : list cframe; th_uvcache : list nat;
-  th_parent : option nat; th_wrapped : bool; th_dead : bool; th_started : bool }.
+  th_parent : option nat; th_wrapped : bool; th_dead : bool; th_started : bool;
+  th_nccalls : Z                (* LState.nccalls: calls from Go code into the thread that have not returned;
+                                   kept live in the thread table also for the running thread *) }.
 
-Definition dummy_th := mkTh (mkReg [] 0) [] [] None false true true.
+Definition dummy_th := mkTh (mkReg [] 0) [] [] None false true true 0.
 
 Record vstate := mkVS {
   vreg : registry;
@@ -214,7 +216,7 @@ Definition with_threads s t := mkVS (vreg s) (vstack s) (vuvcache s) (vuvs s) (v
 (* the running thread's record, brought up to date *)
 Definition cur_thread (s : vstate) : thread :=
   let t := nth (vcur s) (vthreads s) dummy_th in
-  mkTh (vreg s) (vstack s) (vuvcache s) (th_parent t) (th_wrapped t) (th_dead t) (th_started t).
+  mkTh (vreg s) (vstack s) (vuvcache s) (th_parent t) (th_wrapped t) (th_dead t) (th_started t) (th_nccalls t).
 
 (* L.G.CurrentThread = t: the running thread's registers are stored, t's are loaded *)
 Definition switch_to (t : nat) (s : vstate) : vstate :=
